@@ -78,6 +78,18 @@ func (h *vwHost) NewStream(ctx context.Context, to peer.ID, pids ...protocol.ID)
 	return &vwStream{proto: pids[0], done: func(b []byte) { h.net.arrive(h.idx, to, b) }}, nil
 }
 
+// vwTimer wraps the round timer of one runInstance call: the first Timer() call is qbft.Run being entered.
+type vwTimer struct {
+	timer.RoundTimer
+	once    sync.Once
+	entered func()
+}
+
+func (t *vwTimer) Timer(round int64) (<-chan time.Time, func()) {
+	t.once.Do(t.entered)
+	return t.RoundTimer.Timer(round)
+}
+
 type vwDelivery struct {
 	Duty core.Duty
 	Set  *pbv1.UnsignedDataSet
@@ -91,6 +103,8 @@ type vwComp struct {
 	mu    sync.Mutex
 	deliv []vwDelivery
 	life  map[core.Duty][]string // lifecycle labels per duty
+	runs  map[core.Duty]int      // qbft.Run entered
+	sent  map[core.Duty]int      // frames sent
 }
 
 type vwNet struct {
@@ -122,6 +136,9 @@ func (n *vwNet) arrive(from int, to peer.ID, b []byte) {
 	duty := core.DutyFromProto(msg.GetMsg().GetDuty())
 	n.mu.Lock()
 	n.captured[duty] = append(n.captured[duty], msg)
+	n.comps[from].mu.Lock()
+	n.comps[from].sent[duty]++
+	n.comps[from].mu.Unlock()
 	ti, ok := n.ids[to]
 	isDown := n.down[ti]
 	n.mu.Unlock()
@@ -165,12 +182,21 @@ func vwNewNet(t *testing.T, ctx context.Context, n int) *vwNet {
 		net.ids[id] = i
 	}
 	for i := 0; i < n; i++ {
-		comp := &vwComp{idx: i, dl: &vDeadliner{ch: make(chan core.Duty)}, life: map[core.Duty][]string{}}
+		comp := &vwComp{idx: i, dl: &vDeadliner{ch: make(chan core.Duty)}, life: map[core.Duty][]string{}, runs: map[core.Duty]int{}, sent: map[core.Duty]int{}}
+		base := timer.GetRoundTimerFunc(time.Time{}, 12*time.Second)
 		c := &Consensus{
 			p2pNode: &vwHost{id: peers[i].ID, net: net, idx: i}, sender: new(p2p.Sender), peers: peers, peerLabels: labels,
 			privkey: vKey(i), pubkeys: map[int64]*k1.PublicKey{}, deadliner: comp.dl,
 			snifferFunc: func(*pbv1.SniffedConsensusInstance) {}, gaterFunc: func(core.Duty) bool { return true },
-			dropFilter: log.Filter(), timerFunc: timer.GetRoundTimerFunc(time.Time{}, 12*time.Second),
+			dropFilter: log.Filter(),
+			timerFunc: func(d core.Duty) timer.RoundTimer {
+				return &vwTimer{RoundTimer: base(d), entered: func() {
+					comp.mu.Lock()
+					comp.runs[d]++
+					comp.life[d] = append(comp.life[d], "LRun")
+					comp.mu.Unlock()
+				}}
+			},
 			metrics: metrics.NewConsensusMetrics(protocols.QBFTv2ProtocolID),
 		}
 		for j := 0; j < n; j++ {
@@ -239,7 +265,7 @@ func (s *vwScen) startLabel(node int, d core.Duty) {
 	switch {
 	case s.running(node, d):
 		comp.label(d, "LStart Joined")
-	case comp.dl.script[d] == core.DeadlineExpired && hasKey(comp.dl.script, d):
+	case hasKey(comp.dl.script, d) && comp.dl.script[d] != core.DeadlineScheduled:
 		comp.label(d, "LStart Skipped")
 	default:
 		comp.label(d, "LStart Started")
@@ -373,6 +399,31 @@ func (s *vwScen) expire(d core.Duty) {
 	s.tick()
 }
 
+// expireOn: the deadline passes on ONE component only (clock skew).
+func (s *vwScen) expireOn(node int, d core.Duty) {
+	comp := s.net.comps[node]
+	if comp.dl.script == nil {
+		comp.dl.script = map[core.Duty]core.DeadlineStatus{}
+	}
+	comp.dl.script[d] = core.DeadlineExpired
+	comp.c.deleteInstanceIO(d)
+	comp.label(d, "LExpire")
+	s.tick()
+}
+
+// refuse: the deadliner of every component answers `st` (Expired / Exempt) for the duty from now on, without
+// reporting it (no instance deletion).
+func (s *vwScen) refuse(d core.Duty, st core.DeadlineStatus) {
+	for _, comp := range s.net.comps {
+		if comp.dl.script == nil {
+			comp.dl.script = map[core.Duty]core.DeadlineStatus{}
+		}
+		comp.dl.script[d] = st
+		comp.label(d, "LRefuse")
+	}
+	s.tick()
+}
+
 // sleep lets virtual time pass (round timers fire).
 func (s *vwScen) sleep(d time.Duration) {
 	time.Sleep(d)
@@ -440,6 +491,17 @@ func vwRun(t *testing.T, out *vwOut, name string, seed int64, script func(s *vwS
 					if at, exp := s.expired[d]; exp && dv.At >= at {
 						viol("wrapper:decided-after-expiry", fmt.Sprintf("scenario %q: component %d delivered duty %s after its expiry", name, comp.idx, d))
 					}
+				}
+			}
+			for d, k := range comp.runs {
+				out.Stats["runs"] += k
+				if k > 1 {
+					out.Violations = append(out.Violations, map[string]any{"key": "wrapper:instance-started-twice", "scenario": name, "node": comp.idx, "duty": d.String(), "what": fmt.Sprintf("scenario %q: component %d entered qbft.Run %d times for duty %s", name, comp.idx, k, d)})
+				}
+			}
+			for d, k := range comp.sent {
+				if k > 0 && comp.runs[d] == 0 {
+					out.Violations = append(out.Violations, map[string]any{"key": "wrapper:broadcast-without-instance", "scenario": name, "node": comp.idx, "duty": d.String(), "what": fmt.Sprintf("scenario %q: component %d sent %d frames for duty %s without running an instance", name, comp.idx, k, d)})
 				}
 			}
 			for d, ls := range comp.life {
@@ -622,4 +684,71 @@ func vwScenarios(t *testing.T, out *vwOut, seed int64, rep int) {
 		}
 	})
 
+
+	vwRun(t, out, tag+"decide via participate, deadline passes on that member only, late propose there", seed+9, func(s *vwScen) {
+		d := att(20)
+		s.participate(0, d)
+		all(s, d, 1, 2, 3)
+		s.sleep(3 * time.Second)
+		dm := s.decidedMsg(d, 3)
+		s.expireOn(0, d)
+		if dm != nil {
+			expectErr(s, s.replay(0, dm), "duty expired or exempt", "DECIDED for a duty expired on this member")
+		}
+		s.propose(0, d) // must be skipped: no second instance
+		s.sleep(3 * time.Second)
+		s.participate(0, d)
+	})
+
+	vwRun(t, out, tag+"deadline passes before any start; late participate then late propose (and the other order on another member)", seed+10, func(s *vwScen) {
+		d := att(21)
+		all(s, d, 2, 3)
+		s.expire(d)
+		s.participate(0, d)
+		s.propose(0, d)
+		s.propose(1, d)
+		s.participate(1, d)
+		s.sleep(2 * time.Second)
+	})
+
+	vwRun(t, out, tag+"deadliner answers Expired without having reported the duty; propose, participate, messages", seed+11, func(s *vwScen) {
+		d := att(22)
+		all(s, d, 1, 2, 3)
+		s.sleep(3 * time.Second)
+		dm := s.decidedMsg(d, 2)
+		s.refuse(d, core.DeadlineExpired)
+		if dm != nil {
+			expectErr(s, s.replay(0, dm), "duty expired or exempt", "DECIDED for a refused duty")
+		}
+		s.propose(0, d)
+		s.participate(0, d)
+		s.participate(1, d) // already running there
+	})
+
+	vwRun(t, out, tag+"exempt duty: propose, participate and messages start nothing", seed+12, func(s *vwScen) {
+		d, other := att(23), att(24)
+		all(s, other, 0, 1, 2, 3) // to have real messages to re-target is not possible (signed duty): use own duty's traffic only
+		s.refuse(d, core.DeadlineExempt)
+		s.propose(0, d)
+		s.participate(1, d)
+		s.participate(0, d)
+		s.propose(1, d)
+		s.sleep(2 * time.Second)
+	})
+
+	vwRun(t, out, tag+"undecided instance (no quorum), expiry, late participate and propose, late messages", seed+13, func(s *vwScen) {
+		d := att(25)
+		s.propose(0, d)
+		s.propose(1, d)
+		s.sleep(2 * time.Second)
+		rc := s.seen(d, qbft.MsgRoundChange)
+		s.expire(d)
+		for _, m := range rc {
+			expectErr(s, s.replay(2, m), "duty expired or exempt", "ROUND-CHANGE for an expired duty")
+		}
+		s.participate(0, d)
+		s.propose(2, d)
+		s.participate(2, d)
+		s.sleep(2 * time.Second)
+	})
 }
